@@ -12,7 +12,7 @@ RULE = ("all multisets of 1-3 member sequences (members = every well-formed set 
         "non-trivial = two members share a (channel, pitch) and overlap or abut")
 ASSUMPTIONS = ["velocity of fused notes is not demanded", "members never carry two different signatures of one kind on one tick"]
 REQUIRED_FLAGS = ["overlap_fused", "nested", "abutting_kept_separate", "identical_notes", "empty_member",
-                  "signature_repeat_dropped", "different_durations", "permutation_checked", "receiver_nonempty"]
+                  "signature_repeat_dropped", "member_restates_own_signature_after_foreign_change", "different_durations", "permutation_checked", "receiver_nonempty"]
 
 
 def context(tier, seed):
@@ -42,7 +42,9 @@ def members(ctx):
 
 
 SIGOPTS = [[], [("ts", 0, 3, 4)], [("ts", 4, 3, 4)], [("ts", 4, 4, 4)], [("ks", 2, "G")], [("ts", 0, 3, 4), ("ks", 2, "G")],
-           [("ks", 2, "D")], [("ts", 0, 3, 4), ("ts", 4, 4, 4)], [("ts", 4, 3, 8)], [("ts", 0, 3, 4), ("ts", 6, 3, 8)]]
+           [("ks", 2, "D")], [("ts", 0, 3, 4), ("ts", 4, 4, 4)], [("ts", 4, 3, 8)], [("ts", 0, 3, 4), ("ts", 6, 3, 8)],
+           # a member restating its own signature (a repeat in its own context, not in the merged one)
+           [("ts", 0, 3, 4), ("ts", 6, 3, 4)], [("ks", 0, "G"), ("ks", 6, "G")], [("ks", 4, "D")]]
 
 
 def units(ctx):
@@ -143,6 +145,11 @@ def model(mems):
             ks_ = e[2]
     if len(ev) < len(sig):
         facts.add("signature_repeat_dropped")
+    for m in mems:
+        own = sorted((tuple(e) for e in m["events"]), key=lambda e: e[1])
+        for a, b in zip(own, own[1:]):
+            if a[0] == b[0] and a[2:] == b[2:] and any(x[0] == a[0] and a[1] < x[1] < b[1] and x[2:] != a[2:] for x in sig):
+                facts.add("member_restates_own_signature_after_foreign_change")
     return sorted(notes), sorted(ev, key=str), dur, facts
 
 
